@@ -82,3 +82,25 @@ Proof.
   intros b ty. unfold gen_next_job, get_next_job_from_buffer, last_error. destruct (b_store b) as [|h r]; [reflexivity|].
   destruct ty; reflexivity.
 Qed.
+
+(* buffer_type_utils.job_in_correct_buffer_for_pickup / is_job_ready_for_pickup_from_postbuffer,
+   possible_transition_utils.is_early_transport / is_transportable *)
+Theorem gen_is_ready_eq : forall i x jn jb, gen_is_ready i x jn jb = is_ready i x jn jb.
+Proof.
+  intros i x jn jb. unfold gen_is_ready, is_ready, gen_ok_buffer.
+  destruct (get_buf x (j_loc jb)) as [b|]; simpl; [|reflexivity].
+  destruct (get_bcfg i (j_loc jb)) as [c|]; simpl; [|reflexivity].
+  destruct (is_correct_position (index_of jn (b_store b)) (length (b_store b)) (bc_type c)) as [cp|]; simpl; [|reflexivity].
+  destruct (j_loc jb); reflexivity.
+Qed.
+
+Theorem gen_is_early_eq : forall i x jn jb, gen_is_early i x jn jb = (r <- is_ready i x jn jb ;; Ok (negb r)).
+Proof. intros. unfold gen_is_early. rewrite gen_is_ready_eq. reflexivity. Qed.
+
+Theorem gen_is_transportable_eq : forall i x jb, gen_is_transportable i x jb = is_transportable i x jb.
+Proof.
+  intros i x jb. unfold gen_is_transportable, is_transportable. rewrite gen_job_is_done_eq, gen_all_operations_done_eq.
+  destruct (job_is_done i jb); [reflexivity|]. destruct (all_operations_done jb); [reflexivity|].
+  destruct (first_idle jb) as [k|]; simpl; [|reflexivity]. destruct (nth_error (j_ops jb) k) as [o|]; simpl; [|reflexivity].
+  destruct (get_mach x (o_mach o)); simpl; [|reflexivity]. destruct (is_job_at_machine jb (o_mach o)); reflexivity.
+Qed.
